@@ -71,30 +71,8 @@ package storage
 //@ -- Frame of the node/custodian/withdrawal writers called at the end of writeUTXO: they only Set keys with the prefixes
 //@ -- NODESTATE…, CUSTODIANUPDATE, WITHDRAWAL (by inspection of their key constructors in badger_node.go,
 //@ -- badger_custodian.go, badger_withdrawal.go), never a GHOST entry. ASSUMED (these functions are not under contract yet).
-//@ assume func writeNodePledge
-//@   modifies *txn
-//@   ensures forall k mathint :: {badger.kvget(*txn, k)} keykind(k) == 2 ==> badger.kvget(*txn, k) == old(badger.kvget(*txn, k))
-//@   ensures [c15-frame] forall k mathint :: {badger.kvget(*txn, k)} keykind(k) != 14 ==> badger.kvget(*txn, k) == old(badger.kvget(*txn, k)) -- C15: its single Set writes a key of kind 14 (see zz_contracts_c15_verif.go)
-//@   ensures [c15-fail] err != nil ==> *txn == old(*txn) -- every error return precedes the Set, or is the Set's own error
-//@   ensures [db] badger.txndb(*txn) == old(badger.txndb(*txn)) -- the transaction stays attached to its DB (needed by NewTransaction/Commit style callers: C15)
-//@ assume func writeNodeCancel
-//@   modifies *txn
-//@   ensures forall k mathint :: {badger.kvget(*txn, k)} keykind(k) == 2 ==> badger.kvget(*txn, k) == old(badger.kvget(*txn, k))
-//@   ensures [c15-frame] forall k mathint :: {badger.kvget(*txn, k)} keykind(k) != 14 ==> badger.kvget(*txn, k) == old(badger.kvget(*txn, k)) -- C15: its single Set writes a key of kind 14 (see zz_contracts_c15_verif.go)
-//@   ensures [c15-fail] err != nil ==> *txn == old(*txn) -- every error return precedes the Set, or is the Set's own error
-//@   ensures [db] badger.txndb(*txn) == old(badger.txndb(*txn)) -- the transaction stays attached to its DB (needed by NewTransaction/Commit style callers: C15)
-//@ assume func writeNodeAccept
-//@   modifies *txn
-//@   ensures forall k mathint :: {badger.kvget(*txn, k)} keykind(k) == 2 ==> badger.kvget(*txn, k) == old(badger.kvget(*txn, k))
-//@   ensures [c15-frame] forall k mathint :: {badger.kvget(*txn, k)} keykind(k) != 14 ==> badger.kvget(*txn, k) == old(badger.kvget(*txn, k)) -- C15: its single Set writes a key of kind 14 (see zz_contracts_c15_verif.go)
-//@   ensures [c15-fail] err != nil ==> *txn == old(*txn) -- every error return precedes the Set, or is the Set's own error
-//@   ensures [db] badger.txndb(*txn) == old(badger.txndb(*txn)) -- the transaction stays attached to its DB (needed by NewTransaction/Commit style callers: C15)
-//@ assume func writeNodeRemove
-//@   modifies *txn
-//@   ensures forall k mathint :: {badger.kvget(*txn, k)} keykind(k) == 2 ==> badger.kvget(*txn, k) == old(badger.kvget(*txn, k))
-//@   ensures [c15-frame] forall k mathint :: {badger.kvget(*txn, k)} keykind(k) != 14 ==> badger.kvget(*txn, k) == old(badger.kvget(*txn, k)) -- C15: its single Set writes a key of kind 14 (see zz_contracts_c15_verif.go)
-//@   ensures [c15-fail] err != nil ==> *txn == old(*txn) -- every error return precedes the Set, or is the Set's own error
-//@   ensures [db] badger.txndb(*txn) == old(badger.txndb(*txn)) -- the transaction stays attached to its DB (needed by NewTransaction/Commit style callers: C15)
+//@ -- writeNodePledge / writeNodeCancel / writeNodeAccept / writeNodeRemove: VERIFIED contracts in zz_contracts_c27_verif.go (property C27); they keep the
+//@ -- former assumed clauses of this file ([ghost-frame] keykind 2 untouched, [c15-frame] only kind 14 written, [c15-fail], [db]).
 //@ assume func writeCustodianNodes
 //@   modifies *txn
 //@   ensures forall k mathint :: {badger.kvget(*txn, k)} keykind(k) == 2 ==> badger.kvget(*txn, k) == old(badger.kvget(*txn, k))
